@@ -624,6 +624,13 @@ func checkC03Hist(c any, r *Rec) error {
 		case "RenderTemplateFile":
 			_, _ = s.RenderTemplateFile("/ok.tpl", nil)
 			m.frozen = true
+		case "CleanCache":
+			// cache maintenance is no way back: the set has created templates and stays frozen
+			if op.Name == "" {
+				s.CleanCache()
+			} else {
+				s.CleanCache(op.Name)
+			}
 		case "ProbeTag":
 			if err := probe(si, "tag", op.Name); err != nil {
 				return err
@@ -672,8 +679,8 @@ func genC03Hist(t *rapid.T) *c03Hist {
 	h := &c03Hist{}
 	for i := 0; i < n; i++ {
 		op := c03Op{Set: drawInt(t, 0, 1, "set")}
-		op.Op = pickW(t, "op", []string{"BanTag", "BanFilter", "FromString", "FromBytes", "FromFile", "FromCache", "RenderTemplateString", "RenderTemplateBytes", "RenderTemplateFile", "ProbeTag", "ProbeFilter"},
-			[]int{5, 5, 1, 1, 1, 1, 1, 1, 1, 2, 2})
+		op.Op = pickW(t, "op", []string{"BanTag", "BanFilter", "FromString", "FromBytes", "FromFile", "FromCache", "RenderTemplateString", "RenderTemplateBytes", "RenderTemplateFile", "ProbeTag", "ProbeFilter", "CleanCache"},
+			[]int{5, 5, 1, 1, 1, 1, 1, 1, 1, 2, 2, 2})
 		switch op.Op {
 		case "BanTag", "ProbeTag":
 			op.Name = pick(t, "tagname", append([]string{"nosuchtag", "if", "if", "lorem", "for"}, tags...))
@@ -683,6 +690,8 @@ func genC03Hist(t *rapid.T) *c03Hist {
 			op.Name = pick(t, "src", []string{"plain", "{{ 1 }}", "{% if %}", "{% lorem %}", `{{ "x"|upper }}`})
 		case "FromFile", "FromCache":
 			op.Name = pick(t, "file", []string{"/ok.tpl", "/bad.tpl", "/missing.tpl"})
+		case "CleanCache":
+			op.Name = pick(t, "cleanname", []string{"", "", "/ok.tpl", "/missing.tpl"})
 		}
 		h.Ops = append(h.Ops, op)
 	}
@@ -691,7 +700,7 @@ func genC03Hist(t *rapid.T) *c03Hist {
 
 var _ = register(&propSpec{
 	ID:    "C03.history",
-	Rule:  "call histories (1-12 operations on 2 sets) over BanTag, BanFilter, FromString, FromBytes, FromFile, FromCache (valid, broken and missing sources), RenderTemplateString/Bytes/File, and probes that compile a one-tag / one-filter template; names drawn from registered, unregistered and already banned ones. Model per set: banned tags, banned filters, frozen flag. Ban* must fail iff unknown, frozen or duplicate and a refused ban changes nothing; every From*/Render* freezes (also when it fails); probes fail iff the model says banned; a final sweep probes every banned name and controls in both sets. Non-trivial: a ban of a known, not yet banned name refused after the freeze.",
+	Rule:  "call histories (1-12 operations on 2 sets) over BanTag, BanFilter, FromString, FromBytes, FromFile, FromCache (valid, broken and missing sources), RenderTemplateString/Bytes/File, CleanCache() / CleanCache(name) (which must not thaw a set), and probes that compile a one-tag / one-filter template; names drawn from registered, unregistered and already banned ones. Model per set: banned tags, banned filters, frozen flag. Ban* must fail iff unknown, frozen or duplicate and a refused ban changes nothing; every From*/Render* freezes (also when it fails); probes fail iff the model says banned; a final sweep probes every banned name and controls in both sets. Non-trivial: a ban of a known, not yet banned name refused after the freeze.",
 	Gen:   func(t *rapid.T) any { return genC03Hist(t) },
 	New:   func() any { return &c03Hist{} },
 	Check: checkC03Hist,
